@@ -22,6 +22,10 @@ type Value interface{}
 type Table struct {
 	hash map[interface{}]Value
 	meta *Table
+	// missing lists names that exist in a real Lua 5.4 library table but are
+	// not modelled here: reading one of them makes the program Unspec instead
+	// of (wrongly) yielding nil.
+	missing map[string]bool
 }
 
 func NewTable() *Table { return &Table{hash: map[interface{}]Value{}} }
